@@ -943,6 +943,8 @@ def oracle(rec):
         ea, eb = langrun.ending_class(rec["runs"][a][0]), langrun.ending_class(rec["runs"][b][0])
         if eb in ("panic", "crash"):
             continue        # the frame-less run itself dies: not a reclamation question (C06/C08)
+        if ea == "timeout" and eb != "timeout":
+            rec.setdefault("framed_only_timeout", []).append(a)   # counted, never a verdict (DESIGN §3)
         sb = langcheck.same_behaviour(rec, a, b)
         if sb is False:
             bad.append((a, {"with_frame": (langrun.panic_text(rec["runs"][a][0])[:200], rec["runs"][a][1][:300]),
@@ -950,11 +952,16 @@ def oracle(rec):
     return bad
 
 
-def shrink(env, src, release=False):
+def shrink(env, src, release=False, budget=90.0):
+    """greedy line removal while the oracle still fails; bounded in time (a stale read can also hang)"""
+    import time
     lines = src.splitlines()
+    t0 = time.time()
 
     def pred(ls):
-        recs = langrun.run_impl(env, "shr", [("s", "\n".join(ls) + "\n")], ["nn", "nf"], release=release, timeout=60)
+        if time.time() - t0 > budget:
+            return False
+        recs = langrun.run_impl(env, "shr", [("s", "\n".join(ls) + "\n")], ["nn", "nf"], release=release, timeout=15)
         r = recs.get("s")
         return bool(r and r.get("accepted") and oracle(r))
     if len(lines) > 60 or not pred(lines):
@@ -995,11 +1002,11 @@ def correspond(env, searching=False, model=True):
         for k, v in tst.items():
             extra["templates"][k] = extra["templates"].get(k, 0) + v
         cases.append(("g%d" % len(cases), src))
-    shard = 2000
+    shard = 500
     for release in profiles:
         for s0 in range(0, len(cases), shard):
             part = cases[s0:s0 + shard]
-            recs = langrun.run_impl(env, "p%d_%d" % (int(release), s0), part, langrun.CFGS, release=release, timeout=1500)
+            recs = langrun.run_impl(env, "p%d_%d" % (int(release), s0), part, langrun.CFGS, release=release, timeout=240)
             ok_cases = []
             for cid, src in part:
                 r = recs.get(cid)
@@ -1015,6 +1022,8 @@ def correspond(env, searching=False, model=True):
                     k = langrun.ending_class(e)
                     extra["endings"][k] = extra["endings"].get(k, 0) + 1
                 bad = oracle(r)
+                if r.get("framed_only_timeout"):
+                    extra["framed_only_timeouts"] = extra.get("framed_only_timeouts", 0) + 1
                 if bad:
                     extra["oracle_failures_total"] = extra.get("oracle_failures_total", 0) + 1
                     if cid in corpus_key:
@@ -1070,7 +1079,7 @@ def correspond(env, searching=False, model=True):
         for i in range(n_shape):
             src, ops = Shape().compile(gen_shape(rng))
             shapes.append(("s%d" % i, src, ops))
-        recs = langrun.run_impl(env, "shapes", [(c, s) for c, s, _ in shapes], ["nn", "nf"], timeout=1500)
+        recs = langrun.run_impl(env, "shapes", [(c, s) for c, s, _ in shapes], ["nn", "nf"], timeout=600)
         mres = run_mem_model(env, "shapes", [(c, o) for c, _, o in shapes])
         for cid, src, ops in shapes:
             r, m = recs.get(cid), mres.get(cid)
